@@ -43,7 +43,7 @@ RULE = ('engine: every position-tagged stream of length n over a 3-symbol pointe
 REQUIRED_CLAUSES = ['R-region-exactness', 'V-verdict-invariance', 'Q-queries-pure', 'E-engine-slice-semantics',
                     'W-wrapper-verdict-invariance', 'actual-size']
 ASSUMPTIONS = ['ground truth for regions is the presented stream itself (slice semantics)',
-               'known findings F1 F3 K11 are attributed by input-only predicates (vlib/known.py, imagegen.vhdx_backward)']
+               'known findings F1 F3 are attributed by input-only predicates (vlib/known.py, imagegen.vhdx_backward)']
 SHARDS = {'quick': 8, 'thorough': 16}
 MIN_DISTINCT = {'quick': 2000, 'thorough': 20000}
 LEVEL_TEXT = ('Exploration with exact oracles: region contents are compared with the stream slice after every chunk, '
@@ -382,12 +382,7 @@ def eval_stream(ctx, case):
                 if differing:
                     ks = []
                     for nm in differing:
-                        k = known_for_inspector(nm, data)
-                        if k is None and nm == 'vmdk' and (
-                                known.k11_bad_header_kdmv(data, first_cut(cuts)) or
-                                known.k11_bad_header_kdmv(data, first_cut(ref[1]))):
-                            k = 'K11'
-                        ks.append(k)
+                        ks.append(known_for_inspector(nm, data))
                     if all(ks):
                         kn = ks[0]
                 ctx.fail('W-wrapper-verdict-invariance',
@@ -503,7 +498,7 @@ def run(ctx):
             case = {'kind': 'stream', 'spec': spec, 'inspectors': insps, 'wrapper': wrap, 'structured': True,
                     'schedules': [[k, expand(c, len(data)), e, q] for k, c, e, q in scheds]}
             eval_stream(ctx, case)
-        # K11 canary: bad-version KDMV through the wrapper, first read 50 vs 64 bytes
+        # formerly K11 (repaired): bad-version KDMV through the wrapper, first read 50 vs 64 bytes must agree
         body = b'=\ncreateType="streamOptimized"\nRW 1 SPARSE "x"\n'
         data = (b'KDMV' + b'\x01\x01\x01\x01' + body).ljust(2048, b'\n')
         eval_stream(ctx, {'kind': 'stream', 'data': data, 'inspectors': [], 'wrapper': True, 'structured': True,
